@@ -21,28 +21,42 @@ from harness.c15_norm import EMPTY
 
 ID = "C15"
 
-RULE = ("one case = one operation history over one loader family: save(id, content) / get(id) / contain(id) / export / "
-        "export_indexing / reopen (export + export_indexing + fresh loader + restore) / fault-export (directory removed or "
-        "replaced by a file), <= 30 operations over a 4-id alphabet, contents drawn per family in the shapes lian's pipeline "
-        "saves, item- and bundle-cache capacities 1..3, config.MAX_ROWS in {1,3,8}; dict model, every read compared under the "
-        "family's normal form after every get and, after a reopen, for every view of the model plus the ids present in the "
-        "bundle files (pandas). 35 families (19 bundle loaders, 16 whole-file loaders). Non-trivial = the history re-saves an "
-        "id after a get or an export of the same id, or its exports produced >= 2 bundles; distinct by content hash of the "
-        "whole history. Plus 'real' cases: the save_* calls of a full lian run on 7 fixed Python projects (with and without "
-        "P2, default and small MAX_ROWS), each recorded key read back in-process and from a fresh Loader.restore().")
+RULE = ("one case = one operation history over one loader family: save(id, content) / get(id) / contain(id) / get_all / export / "
+        "export_indexing / reopen (export + export_indexing + fresh loader on the same directory + restore) / fault-export "
+        "(directory removed or replaced by a file, then two rounds of reads), <= 30 operations (thorough: 40) over a 4-id "
+        "alphabet, contents drawn per family in the shapes lian's pipeline saves, item- and bundle-cache capacities 1..3, "
+        "config.MAX_ROWS in {1,3,8}; dict model; every read is compared under the family's normal form after every get and, "
+        "after a reopen, for every view of the model, plus the ids present in the bundle files (pandas), plus the pending-row "
+        "bound after every save. 38 families (20 bundle loaders incl. GIR, scope hierarchy, CFG, symbol/state-flow graphs, bit "
+        "vectors, statement status, symbol-state space, defined symbols/states, parameter mappings; 18 whole-file loaders incl. "
+        "one-to-many maps, summaries, call graph, call paths, entry points). One case in six runs 'raw' (no step-over). "
+        "Non-trivial = the history re-saves an id after a get or an export of the same id, or its exports produced >= 2 "
+        "bundles; distinct by content hash of the whole history. Plus 'real' cases: every Loader.save_* call of a full lian run "
+        "on 7 fixed Python projects (with and without P2; default MAX_ROWS, 50 and 8) is recorded (normal form at the time of "
+        "the call) and each recorded key is read back from the pipeline's own loader and from a fresh Loader(options).restore().")
 
 ASSUMPTIONS = [
     "normal forms: container type (list/set/numpy array/range), number representation (int, numpy int, integral float) and "
-    "DataModel-vs-list-of-dicts are not content; None, [], an empty DataModel and an item without rows are the same EMPTY value",
+    "DataModel-vs-list-of-dicts are not content; None, an empty DataModel and an item without rows are the same EMPTY value "
+    "- except that an item that WAS saved must not come back as a bare [] when its type is a dict / graph / manager",
     "a NaN/None cell and a missing column are the same (tables are stored in feather files with a union of columns)",
     "State.value is compared through str() (the loader stores the string form by design); ParameterMapping."
     "parameter_access_path None and the default AccessPoint() both mean 'no path'",
-    "fields that no flatten function writes (State.data_type_ids, BitVectorManager.bit_vector_id) are transient, not content",
-    "isolated graph nodes are not content (graphs are stored as edge lists and every reader walks edges)",
-    "ids are non-zero (DataModel.query_index_column_value treats 0 as 'no value'; lian ids start at 100 / are negative for builtins)",
+    "fields that no flatten function writes (State.data_type_ids, BitVectorManager.bit_vector_id, MethodSummaryTemplate."
+    "raw_to_new_index entries of indexes no symbol map refers to) are transient, not content",
+    "isolated graph nodes are not content (graphs are stored as edge lists and every reader walks edges); an SFG node's "
+    "attributes are a function of its identity key",
+    "ids are non-zero (DataModel.query_index_column_value treats 0 as 'no value'; lian ids start at 100 / are negative for "
+    "builtins / 64-bit hashes for P3 contexts); tuple ids (no caller uses them any more) are not generated",
     "reopen always exports and exports the index first: what a loader that was never exported returns is outside the property",
-    "one-to-many maps: the members of different keys are disjoint (a statement belongs to one unit / method / class)",
+    "one loader instance holds one shape of content (P1 defined-symbols = statement ids, P2/P3 = SymbolDefNodes; symbol and "
+    "state bit vectors are separate loaders), as in Loader.__init__",
+    "one-to-many maps: the members of different keys are disjoint (a statement belongs to one unit / method / class); an "
+    "exported symbol's unit_id is the importing unit or unset (import_hierarchy.adjust_result_symbol_node)",
+    "file loaders keep a reference to the saved object: in the real-items clause the value such a loader holds at the end of "
+    "the run is what export() had to write (items mutated by the pipeline after the save are counted, not flagged)",
     "running as root: an unwritable directory cannot be produced with chmod, the fault clause removes the directory or replaces it by a file",
+    "GeneralLoader.remove_unit_id (method cloning) and ImportGraph/ModuleSymbols loaders are covered by the real-items clause only",
 ]
 
 _known_cache = {}
@@ -618,8 +632,8 @@ def replay(path):
 
 # ---------------------------------------------------------------------------------------------
 
-REAL_QUICK = [("classes", False, None), ("classes", True, None), ("imports", False, None), ("loops", False, 8),
-              ("inherit", True, None), ("closures", False, None), ("data", False, 8), ("empty", False, None)]
+REAL_QUICK = [("classes", False, None), ("classes", True, None), ("imports", False, 50), ("loops", False, 8),
+              ("inherit", True, None), ("closures", False, None), ("data", False, 50), ("empty", False, None)]
 
 
 def main(tier, seed, t0):
